@@ -325,6 +325,15 @@ def run(shard, ctx):
                         ctx.check("meter: power-of-two beat units and (0,0) are accepted with length count/unit", False,
                                   {"history": hist}, None, repr(rr), mechanism="set_meter-mid-history")
                         break
+                elif r < 0.735 and model.entries:
+                    # the bar is emptied and filled again
+                    hist.append(("empty",))
+                    st, rr = ctx.call(bar.empty)
+                    while model.entries:
+                        model.remove_last()
+                    if st != "ok":
+                        ctx.check("accept: placement returns normally", False, {"meter": meter, "history": hist}, None, repr(rr), mechanism="raise:empty")
+                        break
                 elif r < 0.82 and model.entries:
                     hist.append(("remove-last",))
                     bar.remove_last_entry()
